@@ -8,7 +8,9 @@ use std::cell::RefCell;
 use std::sync::mpsc::{channel, Receiver, RecvTimeoutError, Sender};
 use std::time::Duration;
 
-pub const HOOK_TIMEOUT_S: u64 = 60;
+/// wall-clock limit of one in-process parser call; generous, because the machine may be shared with other
+/// 16-thread checks (an input that needs 2 s alone was seen to need 60 s under a load of 40)
+pub const HOOK_TIMEOUT_S: u64 = 300;
 
 fn msg_of(e: Box<dyn std::any::Any + Send>) -> String
 {
